@@ -79,6 +79,9 @@ class C09(Prop):
                             'pre': None, 'catch': True})
             for pre in ('file', 'dir', 'emptydir'):
                 out.append({'parts': parts, 'ext': '', 'max': 2, 'wfail': [], 'wfail_from': None, 'cfail': [], 'pre': pre})
+                out.append({'parts': parts, 'ext': '', 'max': 2, 'wfail': [], 'wfail_from': None, 'cfail': [], 'pre': pre, 'url': True})
+            out.append({'parts': parts, 'ext': '', 'max': 2, 'wfail': [n // 2], 'wfail_from': None, 'cfail': [], 'pre': None, 'url': True,
+                        'torn': [n // 2], 'second': [['z']]})
         return out
 
     def gen(self, rng, tier):
@@ -102,7 +105,7 @@ class C09(Prop):
         if rng.random() < .3:
             second = [[rng.choice(['q', 'r']) for _ in range(rng.randint(0, 2))] for _ in range(rng.randint(1, max(1, n - 1)))]
         return {'parts': parts, 'ext': rng.choice(['', '', '.gz', '.bz2']), 'max': mx, 'wfail': wfail, 'wfail_from': wfrom,
-                'cfail': cfail, 'pre': pre, 'torn': sorted(torn), 'second': second}
+                'cfail': cfail, 'pre': pre, 'torn': sorted(torn), 'second': second, **({'url': True} if rng.random() < .2 else {})}
 
     def nontrivial(self, case):
         return bool(case['wfail'] or case['wfail_from'] is not None or case['cfail'] or case['pre'])
@@ -138,6 +141,9 @@ class C09(Prop):
             os.makedirs(path)
             pre_dirs = [path]
         ctx.note('pre:%s' % case['pre'])
+        # the same target may be spelled as a file:// URL: existence checks, writes and the marker must all mean the same file
+        spelled = ('file://' + path) if case.get('url') else path
+        ctx.note('url:%s' % bool(case.get('url')))
         ctx.note('parts:%d' % len(case['parts']))
         before = listing(root)
 
@@ -173,7 +179,7 @@ class C09(Prop):
         self.local.Local.dump = faulty_dump
         try:
             try:
-                rdd.saveAsTextFile(path)
+                rdd.saveAsTextFile(spelled)
                 result = 'ok'
             except self.Exists:
                 result = 'FileAlreadyExists'
@@ -191,7 +197,7 @@ class C09(Prop):
         if second is not None:
             # a later, fault-free save of other data to the same path: refused whenever ANYTHING is there
             try:
-                build_layout(sc, second).saveAsTextFile(path)
+                build_layout(sc, second).saveAsTextFile(spelled)
                 result2 = 'ok'
             except self.Exists:
                 result2 = 'FileAlreadyExists'
